@@ -133,3 +133,52 @@ VF_SUB(rotation_claim_for_noncyclic_shuffle, 300, 6000) {
   if (acc && !should) ctx.fail("soundness/stack_cutchoose_rotation/noncyclic-shuffle-accepted-as-rotation", ctx.desc.str());
   if (!acc && should) ctx.fail("soundness/stack_cutchoose_rotation/unexpected-reject-on-all-one-coins", ctx.desc.str());
 }
+
+// (d) drop-plus-duplicate statement with a prover that answers coin 0 with a NON-INJECTIVE index map.  The output stack holds a
+// re-masked copy of card b where the copy of card a should be.  Coin 1 is answered honestly (a fresh shuffle of s2); for coin 0 the
+// prover sends what a glued secret would look like if the map s -> s3 were a permutation: index vector f o pi2 (it lacks a and
+// holds b twice) and, per SOURCE position, the total randomizer (TMCG_MixStack looks the randomizer up by source position, so the
+// prover gives both descendants of b the same total).  The verifier has nothing but the import check of the secret to notice that
+// the map is no bijection => accepted iff every coin actually played is 1.  Both card encodings share that import code; the
+// discrete-log encoding is used here.
+VF_SUB(cutchoose_prover_with_noninjective_map, 400, 8000) {
+  size_t kappa = (size_t)ctx.c.range(1, 5), n = (size_t)ctx.c.range(2, 6);
+  Scenario sc; StackWorld W; W.w = make_world(ctx, true, 2); base(sc, W.w, "noninj"); W.n = n;
+  SchindelhauerTMCG *Tp = sc.own(new SchindelhauerTMCG(kappa, 2, 5)), *Tv = sc.own(new SchindelhauerTMCG(kappa, 2, 5));
+  BarnettSmartVTMF_dlog *pv = W.w.pv(), *vv = W.w.vv(); Z q = zfrom(pv->q);
+  TMCG_Stack<VTMF_Card> s, s2;
+  for (size_t i = 0; i < n; i++) { VTMF_Card c; VTMF_CardSecret cs; Tp->TMCG_CreatePrivateCard(c, cs, pv, i); s.push(c); }
+  // f: a permutation in which the image a is replaced by b
+  size_t a = ctx.c.prob(1, 3) ? 0 : ctx.c.index(n), b = (a + 1 + ctx.c.index(n - 1)) % n;
+  std::vector<size_t> f(n); for (size_t i = 0; i < n; i++) f[i] = i; for (size_t i = n; i > 1; i--) std::swap(f[i - 1], f[ctx.c.index(i)]);
+  for (size_t i = 0; i < n; i++) if (f[i] == a) f[i] = b;
+  std::vector<Z> r2(n); // per output position
+  for (size_t i = 0; i < n; i++) { r2[i] = zrand_below(ctx, q - 1) + 1; VTMF_CardSecret cs; mpz_set(cs.r, r2[i].get_mpz_t()); VTMF_Card c; Tp->TMCG_MaskCard(s[f[i]], c, cs, pv, false); s2.push(c); }
+  std::vector<int> coins(kappa); bool allone = ctx.c.prob(1, 4); for (size_t i = 0; i < kappa; i++) coins[i] = allone ? 1 : (int)ctx.c.coin();
+  Relay rl; bool acc = false;
+  rl.run(ctx.c.seed64(), ctx.c.seed64(),
+    [&](std::iostream &io) {
+      unsigned long sec = 0; io >> sec; io.ignore(1, '\n'); mpz_t foo; mpz_init(foo);
+      for (unsigned long i = 0; i < sec && i < 64; i++) {
+        TMCG_StackSecret<VTMF_CardSecret> ss2; TMCG_Stack<VTMF_Card> s3; Tp->TMCG_CreateStackSecret(ss2, false, n, pv);
+        // equalise the totals of the two descendants of b: positions j1 < j2 of s2 with f = b
+        size_t j1 = n, j2 = n; for (size_t j = 0; j < n; j++) if (f[j] == b) { if (j1 == n) j1 = j; else j2 = j; }
+        { Z t = (r2[j1] + zfrom(ss2[j1].second.r) - r2[j2]) % q; if (t < 0) t += q; mpz_set(ss2[j2].second.r, t.get_mpz_t()); }
+        Tp->TMCG_MixStack(s2, s3, ss2, pv, false);
+        std::ostringstream ost; ost << s3 << std::endl; tmcg_mpz_shash(foo, ost.str()); io << foo << std::endl;
+        io >> foo; if (!io.good()) break;
+        if (mpz_get_ui(foo) & 1UL) io << ss2 << std::endl;
+        else { TMCG_StackSecret<VTMF_CardSecret> g; std::vector<Z> tot(n, Z(1));
+          for (size_t j = 0; j < n; j++) tot[f[j]] = (r2[j] + zfrom(ss2[j].second.r)) % q;
+          for (size_t i2 = 0; i2 < n; i2++) { VTMF_CardSecret cs; mpz_set(cs.r, tot[i2].get_mpz_t()); g.push(f[ss2[i2].first], cs); }
+          io << g << std::endl; }
+      }
+      mpz_clear(foo); },
+    [&](std::iostream &io) { std::vector<int> fr; for (int c : coins) fr.push_back(c ? 0xFF : 0x00); rng_script_requests(fr); acc = Tv->TMCG_VerifyStackEquality(s, s2, false, vv, io, io); }, nullptr);
+  std::string sent; for (size_t i = 1; i < rl.v_lines.size(); i++) sent += (rl.v_lines[i] == "0" ? '0' : '1');
+  bool should = sent.size() == kappa && sent.find('0') == std::string::npos;
+  ctx.desc << "kappa=" << kappa << " n=" << n << " output holds card " << b << " twice and card " << a << " never, f=["; for (size_t i = 0; i < n; i++) ctx.desc << (i ? "," : "") << f[i]; ctx.desc << "] coins-sent=" << sent << " accepted=" << acc;
+  ctx.label(should ? "all-coins-one" : "some-coin-zero"); ctx.label(a == 0 ? "dropped-position-0" : a == n - 1 ? "dropped-last-position" : "dropped-inner-position"); ctx.nontrivial(ctx.desc.str());
+  if (acc && !should) ctx.fail("soundness/stack_cutchoose/non-injective-index-map-accepted", ctx.desc.str());
+  if (!acc && should) ctx.fail("soundness/stack_cutchoose/unexpected-reject-on-all-one-coins", ctx.desc.str());
+}
